@@ -576,6 +576,8 @@ func (c *cfgComp) Impl(cs Case) []string {
 			out[i] = cfgFile(o.Meta, workRoot)
 		case "cfg ser":
 			out[i] = cfgSer(o.Strs)
+		case "cfg head":
+			out[i] = cfgFile(o.Meta, workRoot)
 		default:
 			out[i] = "bad-op"
 		}
@@ -588,6 +590,9 @@ func (c *cfgComp) Oracle(cs Case, impl []string) string {
 	for i, o := range cs.Ops {
 		if strings.HasPrefix(impl[i], "panic") || strings.HasPrefix(impl[i], "accepted-but") || strings.HasPrefix(impl[i], "accept-but") {
 			return fmt.Sprintf("%s [%s]: %s", o.Name, o.Strs0(), impl[i])
+		}
+		if o.Name == "cfg head" && strings.HasPrefix(o.Meta, "#valid\n") && impl[i] != "accept" {
+			return "a configuration file with a valid head (schema, orchestration, metric keys) was rejected: " + strings.Join(o.Strs, " ")
 		}
 		if o.Name == "cfg ser" && o.Meta == "#valid" && impl[i] != "accept" {
 			return "generated valid output section rejected: " + strings.Join(o.Strs, " ")
@@ -825,6 +830,12 @@ func (c *cfgComp) Generate(rng *rand.Rand, n int, emit func(Case)) {
 	var root2 yaml.Node
 	if err := yaml.Unmarshal(sampleConfigText, &root2); err != nil {
 		return
+	}
+	// the head of the file (Model/CfgFile.lean): the sample with its schema size, orchestration keys and tag, and metric keys replaced
+	for i := 0; i < n/8; i++ {
+		if op, ok := cfgGenHead(rng, cfgDoc.Schema.Fields); ok {
+			emit(Case{Ops: []Op{op}, Tag: "head"})
+		}
 	}
 	if cfgSpreadRewriters(&root2) > 0 {
 		v2, _ := yaml.Marshal(&root2)
@@ -1102,4 +1113,147 @@ func cfgSer(strs []string) (res string) {
 		}
 	}
 	return "accept"
+}
+
+
+// ---- the head of the file: schema size, orchestration, metric keys ----
+
+func yamlTop(root *yaml.Node, key string) *yaml.Node {
+	doc := root
+	if doc.Kind == yaml.DocumentNode && len(doc.Content) > 0 {
+		doc = doc.Content[0]
+	}
+	for i := 0; i+1 < len(doc.Content); i += 2 {
+		if doc.Content[i].Value == key {
+			return doc.Content[i+1]
+		}
+	}
+	return nil
+}
+
+func yamlSetKey(m *yaml.Node, key string, v *yaml.Node) {
+	for i := 0; i+1 < len(m.Content); i += 2 {
+		if m.Content[i].Value == key {
+			m.Content[i+1] = v
+			return
+		}
+	}
+}
+
+func yamlSeq(items []string) *yaml.Node {
+	n := &yaml.Node{Kind: yaml.SequenceNode, Style: yaml.FlowStyle}
+	for _, it := range items {
+		n.Content = append(n.Content, &yaml.Node{Kind: yaml.ScalarNode, Tag: "!!str", Value: it, Style: yaml.DoubleQuotedStyle})
+	}
+	return n
+}
+
+// cfgGenHead builds one `cfg head` op: tokens for the model (maxFields, fields, keys, tag text, tag parse, metric keys, and
+// "#valid" when the head is valid by construction) and, as Meta, the sample configuration with these values put in.
+func cfgGenHead(rng *rand.Rand, fields []string) (Op, bool) {
+	var root yaml.Node
+	if err := yaml.Unmarshal(sampleConfigText, &root); err != nil {
+		return Op{}, false
+	}
+	valid := true
+	bad := func(p int) bool { return rng.Intn(100) < p }
+	maxF := 30
+	if bad(10) {
+		maxF, valid = []int{0, len(fields) - 1, 1}[rng.Intn(3)], false
+	} else if bad(20) {
+		maxF = len(fields)
+	}
+	pickDistinct := func(n int, avoid map[string]bool) []string {
+		var l []string
+		for tries := 0; len(l) < n && tries < 50; tries++ {
+			f := fields[rng.Intn(len(fields))]
+			if avoid[f] {
+				continue
+			}
+			avoid[f] = true
+			l = append(l, f)
+		}
+		return l
+	}
+	used := map[string]bool{}
+	keys := pickDistinct(1+rng.Intn(3), used)
+	switch {
+	case bad(6):
+		keys, valid = append(keys, keys[rng.Intn(len(keys))]), false // a key twice
+	case bad(5):
+		keys, valid = append(keys, "nosuchfield"), false
+	case bad(4):
+		keys, valid = nil, false
+	}
+	// tag: literals and variables; a variable is followed by a literal that starts with a non-identifier character
+	var text string
+	var parts []string
+	unparsable := false
+	text, parts = "t", []string{"l" + hex.EncodeToString([]byte("t"))}
+	for k := rng.Intn(3); k > 0; k-- {
+		v := "nokey"
+		if len(keys) > 0 && !bad(8) {
+			v = keys[rng.Intn(len(keys))]
+		} else if bad(50) && len(fields) > 0 {
+			v = fields[rng.Intn(len(fields))] // a schema field that is (probably) no key
+		}
+		isKey := false
+		for _, kk := range keys {
+			isKey = isKey || kk == v
+		}
+		if !isKey {
+			valid = false
+		}
+		text += ".$" + v
+		parts = append(parts, "l"+hex.EncodeToString([]byte(".")), "v"+hex.EncodeToString([]byte(v)))
+	}
+	switch {
+	case bad(4):
+		text, parts, valid = "", nil, false
+	case bad(4):
+		text, unparsable, valid = text+".$$", true, false
+	}
+	mkeys := pickDistinct(1+rng.Intn(3), used)
+	switch {
+	case bad(6) && len(keys) > 0:
+		mkeys, valid = append(mkeys, keys[rng.Intn(len(keys))]), false // listed in both
+	case bad(6) && len(mkeys) > 0:
+		mkeys, valid = append(mkeys, mkeys[0]), false
+	case bad(4):
+		mkeys, valid = append(mkeys, "nosuchfield"), false
+	case bad(4):
+		mkeys, valid = nil, false
+	}
+	if len(mkeys) == 0 {
+		valid = false
+	}
+	// put the values into the sample
+	sch, orch := yamlTop(&root, "schema"), yamlTop(&root, "orchestration")
+	if sch == nil || orch == nil || yamlTop(&root, "metricKeys") == nil {
+		return Op{}, false
+	}
+	yamlSetKey(sch, "maxFields", &yaml.Node{Kind: yaml.ScalarNode, Tag: "!!int", Value: strconv.Itoa(maxF)})
+	yamlSetKey(orch, "keys", yamlSeq(keys))
+	yamlSetKey(orch, "tag", &yaml.Node{Kind: yaml.ScalarNode, Tag: "!!str", Value: text, Style: yaml.DoubleQuotedStyle})
+	doc := root.Content[0]
+	yamlSetKey(doc, "metricKeys", yamlSeq(mkeys))
+	textOut, err := yaml.Marshal(&root)
+	if err != nil {
+		return Op{}, false
+	}
+	tagTok, partTok := "-", "-"
+	if text != "" {
+		tagTok = hex.EncodeToString([]byte(text))
+	}
+	if unparsable {
+		partTok = "none"
+	} else if len(parts) > 0 {
+		partTok = strings.Join(parts, ",")
+	}
+	strs := []string{strconv.Itoa(maxF), hexNames(fields), hexNames(keys), tagTok, partTok, hexNames(mkeys)}
+	meta := string(textOut)
+	if valid {
+		meta = "#valid\n" + meta
+	}
+	return Op{Name: "cfg head", Strs: strs, Meta: meta}, true
 }
